@@ -27,6 +27,9 @@
 #include <cassert>
 #include <cerrno>
 #include <cstring>
+#ifdef GALOIS_VERIF
+#include <cstdlib>
+#endif
 #include <fstream>
 #include <functional>
 #include <memory>
@@ -212,13 +215,58 @@ void markValid(std::vector<cpuinfo>& info) {
   }
 }
 
+#ifdef GALOIS_VERIF
+//! verification hook: GALOIS_VERIF_TOPO="a,b,c" synthesises a machine with one
+//! socket (= numa node) per entry and that many single-threaded cores on it
+bool verifSyntheticTopo(std::vector<cpuinfo>& vals) {
+  const char* spec = getenv("GALOIS_VERIF_TOPO");
+  if (!spec || !*spec)
+    return false;
+  unsigned socket = 0, proc = 0;
+  const char* p = spec;
+  while (*p) {
+    char* end;
+    unsigned long n = strtoul(p, &end, 10);
+    if (end == p)
+      break;
+    for (unsigned long c = 0; c < n; ++c) {
+      cpuinfo ci{};
+      ci.proc     = proc++;
+      ci.physid   = socket;
+      ci.sib      = n;
+      ci.coreid   = c;
+      ci.cpucores = n;
+      ci.numaNode = socket;
+      ci.valid    = true;
+      ci.smt      = false;
+      vals.push_back(ci);
+    }
+    ++socket;
+    p = (*end == ',') ? end + 1 : end;
+    if (end == p && *end)
+      break;
+  }
+  return !vals.empty();
+}
+#endif
+
 galois::substrate::HWTopoInfo makeHWTopo() {
   galois::substrate::MachineTopoInfo retMTI;
 
+#ifdef GALOIS_VERIF
+  std::vector<cpuinfo> info;
+  if (!verifSyntheticTopo(info)) {
+    info = parseCPUInfo();
+    std::sort(info.begin(), info.end());
+    markSMT(info);
+    markValid(info);
+  }
+#else
   auto info = parseCPUInfo();
   std::sort(info.begin(), info.end());
   markSMT(info);
   markValid(info);
+#endif
 
   info.erase(std::partition(info.begin(), info.end(),
                             [](const cpuinfo& c) { return c.valid; }),
@@ -278,6 +326,10 @@ galois::substrate::HWTopoInfo galois::substrate::getHWTopo() {
 
 //! binds current thread to OS HW context "proc"
 bool galois::substrate::bindThreadSelf(unsigned osContext) {
+#ifdef GALOIS_VERIF
+  if (getenv("GALOIS_VERIF_TOPO"))
+    return true; // synthetic topology: os contexts are not real cpus
+#endif
 #ifdef GALOIS_USE_SCHED_SETAFFINITY
   cpu_set_t mask;
   /* CPU_ZERO initializes all the bits in the mask to zero. */
